@@ -45,7 +45,7 @@ RULE = ('pipeline: one merged CG molecule of 1-3 chains / 3-20 residues (one bac
 ASSUMPTIONS = [
     'GoPipeline always receives one merged molecule (several molecules per system are outside the stated domain)',
     'chain identifiers of the chains of one molecule are pairwise distinct and (chain, _old_resid) is unique per residue',
-    'every residue has exactly one backbone bead; the site name differs from the backbone bead name',
+    'a residue has one backbone bead or none (cofactor / ligand); no contact names a residue without one (the code stops the run with a message then); the site name differs from the backbone bead name',
     'a pair whose backbone distance is within 1e-9 (relative) of a cut-off may be accepted or rejected',
     'the keyword arguments are the seven that bin/martinize2 passes (checked against its source in preload)',
     'site type name is "<moltype>_<resid>" (docstring of add_virtual_sites, doc/source/tutorials/go_models.rst)',
@@ -219,6 +219,7 @@ def _case(draw, tier, hazard=False):
     anchored = []
     bbpos = []
     edges = []
+    ligand = fixed(st.sampled_from([False] * 11 + [True]), nres)
     for ri in range(nres):
         is_anchored, to_prev, target, cat, frac, general = plan[ri]
         _, bbtype, bbcharge, sctypes = templates[ri]
@@ -250,7 +251,9 @@ def _case(draw, tier, hazard=False):
         else:
             pos = free[3 * ri:3 * ri + 3]
         bbpos.append(pos)
-        atoms.append([key, ri, anchor, bbtype, pos, 72.0, bbcharge])
+        # a residue without a backbone particle (cofactor, ion, ligand merged into the molecule): it gets no site and, in this
+        # generator, no contact names it
+        atoms.append([key, ri, 'L1' if ligand[ri] else anchor, bbtype, pos, 72.0, bbcharge])
         bb_key.append(key)
         prev = key
         for si, sctype in enumerate(sctypes):
@@ -374,6 +377,8 @@ def _case(draw, tier, hazard=False):
             push(fake, other)
         if direction in ('both', 'rev'):
             push(other, fake)
+    without_backbone = {ident(ri) for ri in range(nres) if ligand[ri]}
+    entries = [e for e in entries if (e[0], e[1]) not in without_backbone and (e[2], e[3]) not in without_backbone]
     order = draw(st.sampled_from(['permuted', 'permuted', 'as-built', 'reversed', 'split']))
     if order == 'permuted':
         entries = list(draw(st.permutations(entries)))
@@ -757,6 +762,8 @@ def _run(case):
         classes.append('cross-link')
     if not case['contacts']:
         classes.append('empty-list')
+    if len(bbs) < len(residues):
+        classes.append('residue-without-backbone-particle')
 
     def near(info):
         return any(abs(info['d'] - cut) <= 1e-6 * cut for cut in (case['short'], case['long']))
